@@ -273,7 +273,20 @@ func (x *Exec) scanMapRanges(funcs []*ssa.Function) []*ObResult {
 			r := &ObResult{Name: name, Func: key, Kind: "scan", Status: "proved", Solver: "ssa-scan", Instances: 1}
 			if fc != nil {
 				if ls := fc.Loops[li.index]; ls != nil && ls.ByContract {
-					r.Solver = "functional-contract"
+					// "collect, then sort": the order of the iteration may reach one local
+					// slice only, and that slice is sorted on every path to a return
+					r.Solver = "ssa-scan (collect-then-sort)"
+					why := collectThenSort(f, li)
+					if why != "" && pinsResult(fc) {
+						// nothing but locals of the iteration and the result variable are
+						// written, and a postcondition says what the result is
+						r.Solver = "functional-contract"
+						why = ""
+					}
+					if why != "" {
+						r.Status = "refuted"
+						r.Raw = why
+					}
 					out = append(out, r)
 					continue
 				}
@@ -682,6 +695,79 @@ func locallyAllocated(f *ssa.Function, v ssa.Value, depth int) bool {
 			}
 		}
 		return stores > 0
+	}
+	return false
+}
+
+// collectThenSort checks the shape behind "deterministic-by-contract": inside the loop only
+// one variable declared outside it is written (the slice the keys are collected in), the
+// loop does not return, and sort.Strings is called on that variable in a block that
+// dominates every return of the function.
+func collectThenSort(f *ssa.Function, li *loopInfo) string {
+	var target *ssa.Alloc
+	for bi := range li.body {
+		b := f.Blocks[bi]
+		for _, in := range b.Instrs {
+			switch v := in.(type) {
+			case *ssa.Return:
+				return "the collecting loop returns from inside the iteration"
+			case *ssa.Store:
+				al, ok := v.Addr.(*ssa.Alloc)
+				if !ok {
+					continue // element of a fresh array, checked by the frame obligations
+				}
+				if li.body[al.Block().Index] {
+					continue // declared inside the loop
+				}
+				if target != nil && target != al {
+					return fmt.Sprintf("the loop writes two outer variables (%s, %s)", target.Comment, al.Comment)
+				}
+				target = al
+			}
+		}
+	}
+	if target == nil {
+		return "no collecting variable found"
+	}
+	var sortBlock *ssa.BasicBlock
+	for _, b := range f.Blocks {
+		if li.body[b.Index] {
+			continue
+		}
+		for _, in := range b.Instrs {
+			c, ok := in.(*ssa.Call)
+			if !ok || c.Common().StaticCallee() == nil || len(c.Common().Args) != 1 {
+				continue
+			}
+			callee := c.Common().StaticCallee()
+			if callee.Pkg == nil || callee.Pkg.Pkg.Path() != "sort" || callee.Name() != "Strings" {
+				continue
+			}
+			if u, ok := c.Common().Args[0].(*ssa.UnOp); ok && u.X == ssa.Value(target) {
+				sortBlock = b
+			}
+		}
+	}
+	if sortBlock == nil {
+		return fmt.Sprintf("the collected slice %s is never passed to sort.Strings", target.Comment)
+	}
+	for _, b := range f.Blocks {
+		if len(b.Instrs) == 0 {
+			continue
+		}
+		if _, ok := b.Instrs[len(b.Instrs)-1].(*ssa.Return); ok && !sortBlock.Dominates(b) {
+			return fmt.Sprintf("a return is reachable without sorting %s (sort.Strings does not dominate it)", target.Comment)
+		}
+	}
+	return ""
+}
+
+// pinsResult: some postcondition of the contract is an equation for the result.
+func pinsResult(fc *FuncContract) bool {
+	for _, e := range append(append([]Clause{}, fc.Ensures...), fc.Goals...) {
+		if strings.HasPrefix(strings.TrimSpace(e.Expr), "result ==") {
+			return true
+		}
 	}
 	return false
 }
